@@ -50,18 +50,19 @@ def count_on_paths(body, is_event, start=0, stop_blocks=()):
     memo = {}
     def go(b):
         if b in memo: return memo[b]
-        memo[b] = (0, 0)  # cycle guard
+        memo[b] = None  # cycle guard
         e = 1 if is_event(b) else 0
         succ = [s for s in body.succ(b) if (b, s) not in back and s not in stop_blocks]
         succ = [s for s in succ if s in body.can_return]
-        if body.term(b)[0] == "Return" or not succ:
+        if body.term(b)[0] == "Return":
             r = (e, e)
         else:
-            rs = [go(s) for s in succ]
-            r = (e + min(x[0] for x in rs), e + max(x[1] for x in rs))
+            # a block whose only way on is a back edge (await / retry loops) ends no path of its own
+            rs = [x for x in (go(s) for s in succ) if x is not None]
+            r = (e + min(x[0] for x in rs), e + max(x[1] for x in rs)) if rs else None
         memo[b] = r
         return r
-    mn, mx = go(start)
+    mn, mx = go(start) or (0, 0)
     loop = any(is_event(b) and in_loop(body, b) for b in body.reachable)
     return mn, mx, loop
 
